@@ -16,6 +16,9 @@ ASSUME = [
 ]
 
 
+OWNED_BY_C05 = {'negative_flow_not_rejected'}
+
+
 def key_of(step, clause, pre):
     rs = pre['rs'] if step['op'] != 'load' else step['a']['set']
     tagged = bool(rs['items'] and rs['items'][0]['tag'])
@@ -63,18 +66,10 @@ def history(seed, k, n_steps):
     return dict(id='R%d' % k, mode='seq', init=init, steps=steps)
 
 
-def run(ctx):
-    rng = random.Random(ctx.seed)
-    quick = ctx.quick
-    r, _ = tlc.model_check('MC_ReactEnergy.tla', 'MC_ReactEnergy.cfg', coverage=False, timeout=3000)
-    if r.violated:
-        ctx.violation('ReactEnergy:MC:%s' % r.violated, 'model violates %s' % r.violated, dict(kind='mc', counterexample=r.counterexample()[:5000]))
-    elif not r.ok:
-        raise tlc.MachineryError(r.out[-3000:])
-    ctx.note('MC ReactEnergy: %d distinct states, %d transitions' % (r.distinct, r.generated))
-    traces = par.pmap(history, [('%d:%d' % (ctx.seed, k), k, 14) for k in range(150 if quick else 4000)])
+def judge_traces(ctx, traces):
+    """TLC judges the recorded histories; violations are reported by the check that owns the failing clause."""
     defs, cfgc = dr.tla_constants()
-    stats = dict(ok=0, ooc=0, ops={}, literal=0)
+    stats = dict(ok=0, ooc=0, ops={}, literal=0, infeasible_refused=0)
     todo, n_traces = traces, 0
     while todo:
         v = tlc.validate_traces('ReactEnergy', defs, cfgc, todo, procs=16)
@@ -93,11 +88,46 @@ def run(ctx):
             if x['code'] == 'rejected':
                 s = t['steps'][x['l'] - 1]
                 pre = t['steps'][x['l'] - 2]['post'] if x['l'] > 1 else t['init']
+                if (x['clause'] in OWNED_BY_C05) != (ctx.prop == 'C05'):
+                    stats['other_property'] = stats.get('other_property', 0) + 1       # reported by the sibling check
+                    if t['steps'][x['l']:]:
+                        nxt.append(dict(id=t['id'] + 'c', mode='seq', init=s['post'], steps=t['steps'][x['l']:]))
+                    continue
                 ctx.violation(key_of(s, x['clause'], pre), '%s %r: %s pre=%r post=%r obs=%r' % (s['op'], s['a'], x['clause'], pre, s['post'], s['obs']),
                               dict(kind='seq', init=pre, steps=[dict(op=s['op'], a=s['a'])], clause=x['clause']))
                 if t['steps'][x['l']:]:
                     nxt.append(dict(id=t['id'] + 'c', mode='seq', init=s['post'], steps=t['steps'][x['l']:]))
         todo = nxt
+    stats['n_traces'] = n_traces
+    return stats
+
+
+def tagged_feasibility(ctx):
+    """C05 on phase-tagged (and phase-less) reactions applied to single- and multi-phase streams: a conversion that would make a flow
+    negative in the phase the reaction names must raise.  Same generator and specification as C06; only the clause C05 owns is reported."""
+    quick = ctx.quick
+    traces = par.pmap(history, [('%d:f%d' % (ctx.seed, k), k, 14) for k in range(150 if quick else 3000)])
+    stats = judge_traces(ctx, traces)
+    n = 0
+    for t in traces:
+        for s in t['steps']:
+            if s['op'] == 'react' and s['obs']['exc'] != 'none':
+                n += 1
+    return dict(histories=len(traces), reactions_refused=n, steps_judged=stats['ok'])
+
+
+def run(ctx):
+    rng = random.Random(ctx.seed)
+    quick = ctx.quick
+    r, _ = tlc.model_check('MC_ReactEnergy.tla', 'MC_ReactEnergy.cfg', coverage=False, timeout=3000)
+    if r.violated:
+        ctx.violation('ReactEnergy:MC:%s' % r.violated, 'model violates %s' % r.violated, dict(kind='mc', counterexample=r.counterexample()[:5000]))
+    elif not r.ok:
+        raise tlc.MachineryError(r.out[-3000:])
+    ctx.note('MC ReactEnergy: %d distinct states, %d transitions' % (r.distinct, r.generated))
+    traces = par.pmap(history, [('%d:%d' % (ctx.seed, k), k, 14) for k in range(150 if quick else 4000)])
+    stats = judge_traces(ctx, traces)
+    n_traces = stats['n_traces']
     cov = dict(states=r.distinct, transitions=r.generated, traces_validated_against_impl=n_traces,
                steps_validated_in_contract=stats['ok'], steps_out_of_contract_ignored=stats['ooc'], per_operation_in_contract_steps=stats['ops'],
                exhaustive=False, mc_exhaustive_for_cfg=True,
@@ -130,6 +160,6 @@ def replay(ctx, data):
     v = tlc.validate_traces('ReactEnergy', defs, cfgc, [dict(id='R0', mode='seq', init=init, steps=steps)], procs=1)['R0']
     print('# verdict: %r' % (v,))
     if v['code'] == 'rejected':
-        print('VIOLATION property=C06 replay=')
+        print('VIOLATION property=%s replay=%s' % (ctx.prop, data.get('_path', '')))
         return 1
     return 0
